@@ -25,6 +25,9 @@ func genC08(r *rand.Rand, run int, tier string) *vm.Plan {
 	h.toks = append(h.toks, t0)
 	h.honest = append(h.honest, t0)
 	h.tokKey[t0] = key
+	if r.Intn(4) == 0 { // a deep chain forked at its tip (fresh or reloaded), then observed while the family grows
+		h.deepFork(2+r.Intn(6), 2+r.Intn(2), r.Intn(2) == 0)
+	}
 	steps := 6 + r.Intn(25)
 	if tier == "thorough" {
 		steps = 6 + r.Intn(35)
